@@ -40,8 +40,10 @@ def _scenario(draw, tier):
         cfg["knobs"]["max_attempts"] = draw(st.sampled_from([1, 1, 3, 100]))
     ops = []
     for _ in range(draw(st.integers(1, 4))):
-        k = draw(st.sampled_from(["steps", "steps", "steps", "exchange"]))
-        if k == "steps" or cfg["kind"] == "ensemble":
+        k = draw(st.sampled_from(["steps", "steps", "steps", "exchange", "estimate_mass"]))
+        if k == "estimate_mass" and cfg["kind"] == "hmc":
+            ops.append(["estimate_mass", draw(st.booleans())])
+        elif k == "steps" or cfg["kind"] == "ensemble" or k == "estimate_mass":
             ops.append(["steps", draw(st.sampled_from([1, 3, 8, 20]))])
         else:
             ops.append(["exchange", draw(st.integers(0, 2 ** 16))])
@@ -494,6 +496,27 @@ def execute(sc):
         for op in sc["ops"]:
             if V or ended:
                 break
+            if op[0] == "estimate_mass":
+                # public re-tuning of the HMC mass from the samples so far; afterwards momenta, dynamics and
+                # the kinetic energy in the accept rule must all use the NEW mass
+                S_, _ = h.rows()
+                ok_ = S_.shape[0] >= 2 * h.d + 6 and np.all(S_[1:].var(axis=0) > 0) and \
+                    (h.d == 1 or op[1] or np.linalg.cond(np.cov(S_[1:].T)) < 1e6)
+                if not ok_:
+                    continue
+                try:
+                    lib_call("estimate_mass", h.chain.estimate_mass, burn=1, thin=1, diagonal=bool(op[1]))
+                    im_new = np.asarray(h.chain.mass.inv_mass, dtype=float)
+                except LibRaised as e:
+                    stats["estimate_mass_failed_history_ended"] += 1
+                    break
+                except Exception:  # noqa - mass not introspectable: layer A cannot follow, B/C remain
+                    stats["warn_uninterpretable_momentum"] += 1
+                    break
+                h.cfg = dict(h.cfg, knobs=dict(h.cfg["knobs"], inverse_mass=im_new.tolist() if im_new.ndim else float(im_new)))
+                stats["probe_estimate_mass"] += 1
+                momentum_law(V, stats, h)
+                continue
             if op[0] == "exchange":
                 g = np.random.Generator(np.random.PCG64([op[1], 17]))
                 pos = h.target.draw(g, h.T if cfg["target"]["kind"] != "banana" else 1.0)
